@@ -131,17 +131,6 @@ def entries(T):
             return dict(x=flat(a), args=(a,))
         return g
 
-    def g_polar(left):
-        def g(rng):
-            m = rng.normal(size=(3, 3)) * 10 ** rng.uniform(-1, 1)
-            if rng.random() < 0.3:
-                m = haar(rng) @ np.diag(rng.uniform(0.5, 2.0, size=3)) @ haar(rng)
-            U, S, Vh = np.linalg.svd(m)
-            res = svd_residual(m, U, S, Vh)
-            x = flat(U, S, Vh) if left else flat(m, S, Vh)
-            return dict(x=x, args=(m, left), residual=res, cond=S.max() / max(S.min(), 1e-300))
-        return g
-
     def tup(f):
         return lambda *a: flat(*f(*a))
 
@@ -159,9 +148,360 @@ def entries(T):
         "m2v": (g_m66, T.voigt_matrix_to_vector),
         "v2m": (g_v21, T.voigt_vector_to_matrix),
         "rotate": (g_rot, T.rotate),
-        "polar_left": (g_polar(True), tup(T.polar_decompose)),
-        "polar_right": (g_polar(False), tup(T.polar_decompose)),
     }
+
+
+# --------------------------------------------------------------------------
+# polar_decompose: input families, the interpreted run with the recorded SVD, clause checks
+# --------------------------------------------------------------------------
+POLAR_FAMILIES = ("generic", "from_svd", "sym_indefinite", "sym_negdef", "sym_posdef", "sym_psd_singular",
+                  "diag_signed", "reflection", "rotation", "minus_identity", "identity", "rank2", "rank1", "zero",
+                  "repeated_sv", "near_symmetric", "sym_indef_integer", "scaled_tiny", "scaled_huge")
+POLAR_SINGULAR = ("sym_psd_singular", "rank2", "rank1", "zero")
+
+
+def reflection(rng):
+    q = haar(rng)
+    q[:, int(rng.integers(0, 3))] *= -1.0          # det = -1
+    return q
+
+
+def polar_matrix(rng, family):
+    """3x3 input of polar_decompose from one of POLAR_FAMILIES (exact symmetry / rank where the name says so)"""
+    a = rng.normal(size=(3, 3))
+    sc = 10 ** rng.uniform(-1, 1)
+    if family == "generic":
+        return a * sc
+    if family == "from_svd":
+        return haar(rng) @ np.diag(rng.uniform(0.5, 2.0, size=3)) @ haar(rng)
+    if family == "sym_indefinite":            # exactly symmetric, eigenvalues of both signs
+        q = haar(rng)
+        ev = rng.uniform(0.2, 3.0, size=3) * np.array([1.0, -1.0, rng.choice([-1.0, 1.0])])
+        m = q @ np.diag(ev) @ q.T * sc
+        return (m + m.T) / 2
+    if family == "sym_negdef":
+        m = -(a @ a.T + 0.1 * np.eye(3)) * sc
+        return (m + m.T) / 2
+    if family == "sym_posdef":
+        m = (a @ a.T + 0.1 * np.eye(3)) * sc
+        return (m + m.T) / 2
+    if family == "sym_psd_singular":          # exactly symmetric, exactly rank <= 2 is not representable in general:
+        v = rng.integers(-4, 5, size=(int(rng.integers(1, 3)), 3)).astype(float)   # integer Gram matrix: exact
+        return v.T @ v
+    if family == "diag_signed":
+        return np.diag(rng.uniform(0.2, 3.0, size=3) * rng.choice([-1.0, 1.0], size=3)) * sc
+    if family == "reflection":
+        return reflection(rng)
+    if family == "rotation":
+        return haar(rng)
+    if family == "minus_identity":
+        return -np.eye(3)
+    if family == "identity":
+        return np.eye(3)
+    if family == "rank2":
+        if rng.random() < 0.5:
+            return np.diag([rng.uniform(0.5, 2), rng.uniform(0.5, 2), 0.0])[:, rng.permutation(3)]
+        return haar(rng) @ np.diag([rng.uniform(0.5, 2), rng.uniform(0.5, 2), 0.0]) @ haar(rng)
+    if family == "rank1":
+        u, v = rng.integers(-3, 4, size=3).astype(float), rng.integers(-3, 4, size=3).astype(float)
+        if not u.any():
+            u[0] = 1.0
+        if not v.any():
+            v[1] = 1.0
+        return np.outer(u, v)
+    if family == "zero":
+        return np.zeros((3, 3))
+    if family == "repeated_sv":
+        return haar(rng) @ np.diag([2.0, 2.0, 1.0]) @ haar(rng) * sc
+    if family == "near_symmetric":            # symmetric up to one ulp-size perturbation: NOT exactly symmetric
+        m = (a + a.T) / 2 * sc
+        m[0, 1] = np.nextafter(m[0, 1], np.inf)
+        return m
+    if family == "sym_indef_integer":
+        m = rng.integers(-6, 7, size=(3, 3)).astype(float)
+        m = m + m.T
+        m[0, 0], m[1, 1] = abs(m[0, 0]) + 1.0, -abs(m[1, 1]) - 1.0      # e_0^T M e_0 > 0 > e_1^T M e_1
+        return m
+    if family == "scaled_tiny":
+        return a * 1e-9
+    if family == "scaled_huge":
+        return a * 1e9
+    raise ValueError(family)
+
+
+class _RecLinalg:
+    def __init__(self):
+        self.svd_calls = []
+
+    def svd(self, m, *a, **k):
+        out = np.linalg.svd(m, *a, **k)
+        self.svd_calls.append((np.array(m, dtype=float),) + tuple(np.array(o, dtype=float) for o in out))
+        return out
+
+    def __getattr__(self, name):
+        return getattr(np.linalg, name)
+
+
+class _RecNumpy:
+    """stands for the module-level name `np` of pydrex.tensors while the *interpreted* polar_decompose runs:
+    everything is NumPy's, np.linalg.svd is recorded (its outputs are the model's oracle inputs)"""
+
+    def __init__(self):
+        self.linalg = _RecLinalg()
+
+    def __getattr__(self, name):
+        return getattr(np, name)
+
+
+def interpreted_polar(T, m, left):
+    """run the Python source of polar_decompose (py_func) with NumPy's LAPACK; returns (result | exception, svd calls)"""
+    fn = getattr(T.polar_decompose, "py_func", T.polar_decompose)
+    g = fn.__globals__
+    rec, saved = _RecNumpy(), g["np"]
+    g["np"] = rec
+    try:
+        try:
+            out = fn(np.array(m, dtype=float), left)
+        except Exception as e:  # noqa: BLE001
+            out = e
+    finally:
+        g["np"] = saved
+    return out, rec.linalg.svd_calls
+
+
+def polar_clauses(m, R, P, left, tol=1e-9, otol=1e-7):
+    """the polar clause of C11 read on one result: orthogonal factor (both sides), symmetric positive semi-definite
+    stretch, product in the order the variant documents.  Returns the list of failed clauses."""
+    f = []
+    sa = max(1.0, float(np.abs(m).max()))
+    R, P = np.asarray(R, dtype=float), np.asarray(P, dtype=float)
+    if R.shape != (3, 3) or P.shape != (3, 3) or not (np.all(np.isfinite(R)) and np.all(np.isfinite(P))):
+        return ["result is not a pair of finite 3x3 matrices"]
+    I = np.eye(3)
+    if max(np.abs(R.T @ R - I).max(), np.abs(R @ R.T - I).max()) > otol:
+        f.append("first factor is not orthogonal")
+    if np.abs(P - P.T).max() > tol * sa:
+        f.append("stretch is not symmetric")
+    lam = float(np.linalg.eigvalsh((P + P.T) / 2).min())
+    if lam < -tol * sa:
+        f.append(f"stretch is not positive semi-definite (smallest eigenvalue {lam:.6g})")
+    prod = P @ R if left else R @ P
+    if np.abs(prod - m).max() > otol * sa:
+        f.append("P.R != M" if left else "R.U != M")
+    return f
+
+
+# --------------------------------------------------------------------------
+# presentations: the SAME mathematical array handed over with another dtype / memory layout / container
+# --------------------------------------------------------------------------
+PRES_KINDS = ("int64", "int32", "float32", "fortran", "strided", "reversed", "readonly", "list")
+PRES_INTEGER = ("int64", "int32")
+# a presentation may be REFUSED (numba has no typing for it) -- loudly, never with a wrong value
+REFUSAL = ("TypingError", "NumbaNotImplementedError", "NumbaTypeError", "TypeError", "AttributeError", "NumbaValueError")
+
+
+def present(a, kind):
+    """the integer-valued float64 array `a` in another presentation (same values, exactly)"""
+    a = np.array(a, dtype=float)
+    if kind == "float64":
+        return a.copy()
+    if kind in ("int64", "int32", "float32"):
+        return a.astype(getattr(np, kind))
+    if kind == "fortran":
+        return np.asfortranarray(a.copy())
+    if kind == "strided":                      # every second entry of a buffer filled with 1e300
+        big = np.full(tuple(2 * n for n in a.shape), 1e300)
+        sl = tuple(slice(0, None, 2) for _ in a.shape)
+        big[sl] = a
+        return big[sl]
+    if kind == "reversed":                     # negative strides
+        sl = tuple(slice(None, None, -1) for _ in a.shape)
+        return a[sl].copy()[sl]
+    if kind == "readonly":
+        b = a.copy()
+        b.setflags(write=False)
+        return b
+    if kind == "list":
+        return a.tolist()
+    raise ValueError(kind)
+
+
+def int_sym6(rng, hi=200):
+    m = rng.integers(-hi, hi + 1, size=(6, 6))
+    return (np.triu(m) + np.triu(m, 1).T).astype(float)
+
+
+def int_inputs(T, rng):
+    """entry -> list of float64 integer-valued arguments (exactly representable in every presentation)"""
+    M = int_sym6(rng)
+    x = rng.integers(-200, 201, size=21).astype(float)
+    A = rng.integers(-6, 7, size=(3, 3)).astype(float)
+    t_sym = np.asarray(T.voigt_to_elastic_tensor(int_sym6(rng)), dtype=float)
+    t_any = rng.integers(-200, 201, size=(3, 3, 3, 3)).astype(float)
+    t = t_sym if rng.random() < 0.5 else t_any
+    Ri = rng.integers(-2, 3, size=(3, 3)).astype(float)     # `rotate` is the transformation law for ANY matrix
+    return {"invariants": [A], "decompose": [M], "mono": [x], "ortho": [x], "tetr": [x], "hex": [x],
+            "upper3": [A], "upper6": [rng.integers(-200, 201, size=(6, 6)).astype(float)], "vte": [M], "etv": [t], "m2v": [M], "v2m": [x],
+            "rotate": [t, Ri]}
+
+
+def compare_presentations(chk, T, n, rng, kinds=PRES_KINDS):
+    """Every public kernel of pydrex.tensors called with integer-valued inputs in every presentation of PRES_KINDS
+    (for `rotate`: the tensor with a Haar rotation, the rotation matrix, and both); the value must be the extracted
+    model's value on the float64 numbers, or the presentation must be refused loudly.
+    returns (bad, known) -- known = [(entry, kind, detail)] reproductions of the open finding tetr_project/integer dtype"""
+    ent = entries(T)
+    bad, known = [], []
+    hist = chk.cov.setdefault("presentation_histogram", {})
+    for _ in range(n):
+        base = int_inputs(T, rng)
+        jobs = []                              # (entry, impl fn, model input, [(label, args)])
+        for name, args in base.items():
+            fn = ent[name][1]
+            if name == "rotate":
+                t, Ri = args
+                Rh = haar(rng)
+                v1 = [(f"tensor:{k}", [present(t, k), Rh.copy()]) for k in kinds]
+                jobs.append((name, fn, np.concatenate([t.reshape(-1), Rh.reshape(-1)]), v1))
+                v2 = [(f"rotation:{k}", [t.copy(), present(Ri, k)]) for k in kinds] + \
+                     [(f"both:{k}", [present(t, k), present(Ri, k)]) for k in kinds]
+                jobs.append((name, fn, np.concatenate([t.reshape(-1), Ri.reshape(-1)]), v2))
+            else:
+                jobs.append((name, fn, args[0].reshape(-1), [(k, [present(args[0], k)]) for k in kinds]))
+        mres = common.run_model([common.model_line(nm, [], x) for nm, _, x, _ in jobs], group=GROUP)
+        for (name, fn, x, variants), m in zip(jobs, mres):
+            for label, args in variants:
+                kind = label.split(":")[-1]
+                try:
+                    r = ("OK", np.asarray(fn(*args), dtype=float).reshape(-1))
+                except Exception as e:  # noqa: BLE001
+                    r = ("ERR", type(e).__name__, str(e)[:200])
+                key = f"{name}/{label}"
+                chk.note_case((name, label, x.tobytes()), nontrivial=r[0] == "OK",
+                              sample={"entry": name, "presentation": label, "impl": r[0] if r[0] == "ERR" else [float(v) for v in r[1][:3]]})
+                if r[0] == "ERR":
+                    refused = r[1] in REFUSAL and kind in PRES_INTEGER + ("list",)
+                    hist[key] = "refused" if refused else "raised"
+                    if not refused:
+                        bad.append((name, {"x": x, "presentation": label}, f"{label}: raised {r[1]}: {r[2]}"))
+                    continue
+                if m[0] != "OK":
+                    bad.append((name, {"x": x, "presentation": label}, f"{label}: model {m[:2]}, implementation OK"))
+                    continue
+                tol = 1e-5 if kind == "float32" else 1e-9
+                okc, idx = common.vec_close(list(r[1]), m[1], rtol=tol)
+                if okc:
+                    hist.setdefault(key, "same value")
+                    continue
+                a = r[1][idx] if idx is not None and 0 <= idx < len(r[1]) else None
+                b = m[1][idx] if idx is not None and 0 <= idx < len(m[1]) else None
+                detail = f"{label}: component {idx}: implementation {a!r} vs model on the same numbers {b!r}"
+                if name == "tetr" and kind in PRES_INTEGER:
+                    hist[key] = "known finding"
+                    known.append((name, label, detail))
+                else:
+                    hist[key] = "DIFFERENT VALUE"
+                    bad.append((name, {"x": x, "presentation": label}, detail))
+    return bad, known
+
+
+def compare_polar(chk, T, n, rng, families=POLAR_FAMILIES):
+    """polar_decompose, both variants, n inputs from each family of POLAR_FAMILIES.  Per case:
+      1. the Python source (py_func) is run with NumPy's LAPACK and `np.linalg.svd` recorded: it must be called exactly
+         once, on the input; the SVD oracle hypotheses are residual-checked on what it returned;
+      2. the extracted GENERATED code (k_polar_decompose_left/right, tie T) on the recorded (U, S, Vh) vs that run;
+      3. the compiled implementation vs the interpreted run (the orthogonal factor of a rank-deficient matrix is not
+         determined by the input: there it is judged by the clauses only);
+      4. the clauses of the polar theorem read on the compiled result: first factor orthogonal (both sides), stretch
+         symmetric AND positive semi-definite, product in the variant's order.
+    returns (bad, known): known = reproductions of the open finding `right variant on a singular matrix`."""
+    bad, known = [], []
+    hist = chk.cov.setdefault("polar_family_histogram", {})
+    stat = chk.cov.setdefault("polar_checks", {"svd_recorded": 0, "model_vs_interpreted": 0, "compiled_vs_interpreted": 0,
+                                               "clauses_checked": 0, "psd_min_eig_min": None, "rank_deficient": 0,
+                                               "det_negative": 0, "exactly_symmetric": 0, "symmetric_not_psd": 0})
+    cases = []
+    for fam in families:
+        for _ in range(n):
+            m = polar_matrix(rng, fam)
+            for left in (True, False):
+                cases.append((fam, m, left))
+    lines, recs = [], []
+    for fam, m, left in cases:
+        out, calls = interpreted_polar(T, m, left)
+        if len(calls) == 1 and np.array_equal(calls[0][0], m):
+            U, S, Vh = calls[0][1:]
+            stat["svd_recorded"] += 1
+            rec_ok = None
+        else:
+            U, S, Vh = np.linalg.svd(m)
+            rec_ok = (f"the source called np.linalg.svd {len(calls)} time(s)" +
+                      ("" if not calls else " on a matrix other than its argument") +
+                      ": the SVD-oracle model does not describe this call")
+        recs.append((out, (U, S, Vh), rec_ok))
+        lines.append(common.model_line("polar_left" if left else "polar_right", [],
+                                       np.concatenate([m.reshape(-1), U.reshape(-1), S.reshape(-1), Vh.reshape(-1)])))
+    mres = common.run_model(lines, group=GROUP)
+    for (fam, m, left), (iout, (U, S, Vh), rec_ok), mr in zip(cases, recs, mres):
+        name = "polar_left" if left else "polar_right"
+        c = {"x": m.reshape(-1), "family": fam, "left": left}
+        hist[fam] = hist.get(fam, 0) + 1
+        sa = max(float(np.abs(m).max()), 1e-300)
+        singular = bool(S.min() <= 1e-12 * max(S.max(), 1e-300))
+        stat["rank_deficient"] += singular
+        stat["det_negative"] += bool(np.linalg.det(m) < 0)
+        sym = bool(np.array_equal(m, m.T))
+        stat["exactly_symmetric"] += sym
+        stat["symmetric_not_psd"] += bool(sym and np.linalg.eigvalsh(m).min() < 0)
+        res = svd_residual(m, U, S, Vh)
+        if res > 1e-12:
+            bad.append((name, c, f"SVD oracle hypothesis residual {res:.3e}"))
+        if rec_ok:
+            bad.append((name, c, rec_ok))
+        r = call(T.polar_decompose, (m, left))
+        r = r if r[0] == "ERR" else ("OK", r[1])
+        chk.note_case((name, fam, m.tobytes()), nontrivial=bool(np.any(m)),
+                      sample={"entry": name, "family": fam, "impl": r[0] if r[0] == "ERR" else [float(v) for v in r[1][:3]],
+                              "model": mr[0] if mr[0] == "ERR" else [float(v) for v in mr[1][:3]]})
+        if not left and singular:
+            # open finding: M @ inv(U_m) with a singular stretch -- LinAlgError or a non-orthogonal factor
+            if r[0] == "ERR":
+                known.append((name, fam, f"{r[1]}: {r[2][:80]}", m))
+            else:
+                fl = polar_clauses(m, r[1][:9].reshape(3, 3), r[1][9:].reshape(3, 3), left)
+                if fl:
+                    known.append((name, fam, "; ".join(fl), m))
+            continue
+        # 2. generated code on the recorded oracle outputs vs the interpreted source
+        cond = float(S.max() / max(S.min(), 1e-300))
+        tol = 1e-10 if left else max(1e-10, 1e-13 * cond ** 2)
+        if isinstance(iout, Exception) or mr[0] == "ERR":
+            if not (isinstance(iout, Exception) and mr[0] == "ERR"):
+                bad.append((name, c, f"interpreted source: {type(iout).__name__ if isinstance(iout, Exception) else 'OK'}, generated model: {mr[0]}"))
+            continue
+        iR, iP = (np.asarray(a, dtype=float) for a in iout)
+        mR, mP = np.array(mr[1][:9]).reshape(3, 3), np.array(mr[1][9:]).reshape(3, 3)
+        stat["model_vs_interpreted"] += 1
+        if np.abs(iR - mR).max() > tol or np.abs(iP - mP).max() > tol * sa:
+            bad.append((name, c, f"generated model on the recorded SVD vs interpreted source: |dR| = {np.abs(iR - mR).max():.3e}, "
+                                 f"|dP|/|M| = {np.abs(iP - mP).max() / sa:.3e}"))
+        # 3. compiled vs interpreted
+        if r[0] == "ERR":
+            bad.append((name, c, f"compiled implementation raised {r[1]}: {r[2][:120]}"))
+            continue
+        cR, cP = r[1][:9].reshape(3, 3), r[1][9:].reshape(3, 3)
+        stat["compiled_vs_interpreted"] += 1
+        ctol = max(tol, 1e-9)
+        if np.abs(cP - iP).max() > ctol * sa or (not singular and np.abs(cR - iR).max() > ctol):
+            bad.append((name, c, f"compiled vs interpreted: |dR| = {np.abs(cR - iR).max():.3e}, |dP|/|M| = {np.abs(cP - iP).max() / sa:.3e}"))
+        # 4. the theorem's conclusions on the compiled result
+        fl = polar_clauses(m / sa, cR, cP / sa, left, tol=max(1e-9, 10 * tol), otol=max(1e-7, 10 * tol))
+        stat["clauses_checked"] += 1
+        lam = float(np.linalg.eigvalsh((cP + cP.T) / 2).min() / sa)
+        stat["psd_min_eig_min"] = lam if stat["psd_min_eig_min"] is None else min(stat["psd_min_eig_min"], lam)
+        if fl:
+            bad.append((name, c, "polar clauses fail on the implementation's result: " + "; ".join(fl)))
+    return bad, known
 
 
 def call(fn, args):
